@@ -58,11 +58,10 @@ func execC15(ctx *Ctx, in *Input) *Result {
 		rr := r.Sub("plans", si)
 		// interesting feeds: long aborted / rejected ones followed by short ones expose stale slots
 		pick := func(q *rng.R) int { return q.Intn(len(sc.Feeds)) }
-		for vn, u := range sc.Units {
+		for _, u := range sc.sortedUnits() {
 			if u.GenErr != "" || u.CompErr != "" {
 				continue
 			}
-			_ = vn
 			for h := 0; h < nHist; h++ {
 				q := rr.Sub(u.Variant.String(), "hist", h)
 				var ops []engbrt.Op
@@ -185,6 +184,7 @@ func execC15(ctx *Ctx, in *Input) *Result {
 			return res
 		}
 		for i := range rs {
+			res.LogHash = hkey(res.LogHash, jsonStr(rs[i]))
 			if v := judge(&rs[i], goPlans[i]); v != nil {
 				return v
 			}
